@@ -331,6 +331,22 @@ impl DatabaseIterator {
     }
 
     /**
+    The merged iterator positions every one of its children and only remembers the error of a
+    child that could not be positioned (e.g. its table could not be read). It stays valid on the
+    entries of the other children, which would be served as if nothing was missing. A positioning
+    call of the database iterator is documented to return the error and to invalidate the iterator.
+    */
+    fn fail_if_a_child_iterator_failed(&mut self) -> Result<(), RainDBError> {
+        if let Some(child_error) = self.inner_iter.take_error() {
+            self.is_valid = false;
+            self.cached_value = None;
+            return Err(child_error);
+        }
+
+        Ok(())
+    }
+
+    /**
     Move the internal iterator forward until there is a valid user value to yield e.g. keys that
     have not been marked with a tombstone.
 
@@ -474,6 +490,7 @@ impl RainDbIterator for DatabaseIterator {
 
         let lookup_key = InternalKey::new_for_seeking(target.clone(), self.sequence_snapshot);
         self.inner_iter.seek(&lookup_key)?;
+        self.fail_if_a_child_iterator_failed()?;
 
         if self.inner_iter.is_valid() {
             self.find_next_client_entry(false);
@@ -490,6 +507,7 @@ impl RainDbIterator for DatabaseIterator {
         self.direction = DbIterationDirection::Forward;
         self.cached_value = None;
         self.inner_iter.seek_to_first()?;
+        self.fail_if_a_child_iterator_failed()?;
 
         if self.inner_iter.is_valid() {
             self.find_next_client_entry(false);
@@ -506,6 +524,7 @@ impl RainDbIterator for DatabaseIterator {
         self.direction = DbIterationDirection::Backward;
         self.cached_value = None;
         self.inner_iter.seek_to_last()?;
+        self.fail_if_a_child_iterator_failed()?;
         self.find_prev_client_entry();
 
         Ok(())
